@@ -79,7 +79,7 @@ def gen(rng, tier, i):
     use_inject = eh in ('ok',) and rng.random() < 0.6
     if use_inject and rng.random() < 0.5:
         p.opt('fault_exempt_master', 1)
-    enabled = set(k for k in ('tick', 'connect', 'cmd', 'partial', 'close', 'bombcmd', 'hb', 'co', 'inputto', 'vobj', 'stall', 'quit', 'limit', 'nf', 'exec', 'snoop')
+    enabled = set(k for k in ('tick', 'connect', 'cmd', 'partial', 'close', 'bombcmd', 'hb', 'co', 'inputto', 'vobj', 'stall', 'quit', 'limit', 'nf', 'exec', 'snoop', 'telneg')
                   if rng.random() < 0.7)
     enabled.add('tick')
     if has_net: enabled.add('connect')
@@ -201,6 +201,18 @@ def gen(rng, tier, i):
             # the backend and comm.c are working on changes its object in the middle of a command
             c = rng.choice(t)
             p.cycle(say(c, 'do exec dest' + (';' + bomb_script('cmd') if rng.random() < 0.3 else '')))
+        elif a == 'telneg':
+            # telnet sub-negotiation callbacks (terminal type, window size, unknown option) run in the middle of a received
+            # packet; they fail, or take the connection away, and a command follows in the same packet
+            nets = [x for x in t if x != 'con']
+            if nets and kind == 'telnet':
+                c = rng.choice(nets)
+                hk, sb = rng.choice((('tt', b'\xff\xfa\x18\x00vt100\xff\xf0'), ('ws', b'\xff\xfa\x1f\x00\x50\x00\x18\xff\xf0'), ('so', b'\xff\xfa\x63abc\xff\xf0')))
+                what = rng.choice((bomb_script('cmd').replace(';', ','), bomb_script('cmd').replace(';', ','), 'quit', 'dest me', 'rmi me', 'exec dest', 'rec neg'))
+                if what in ('quit', 'dest me', 'rmi me'): conns[c]['alive'] = False
+                p.cycle(say(c, 'do sc me %s %s' % (hk, what)))
+                data = b'do ec' + sb + b'ho mid' + EOL.encode() + b'do echo aftersb' + EOL.encode()
+                p.cycle(send(c, data, rand_segs(rng, len(data)) if rng.random() < 0.3 else None))
         elif a == 'snoop':
             # one user snoops another: everything the snooped user is sent or types is handed to the snooper's object from
             # inside add_message() - a callback that may fail, and two connection records that point at each other
